@@ -17,7 +17,7 @@ NEEDS = {
     "C03_Robin": ["ghost"], "C03_Periodic": ["ghost"], "C03_InteriorKept": ["ghost"],
     "C03_RowsSatisfied": ["ghost", "Mbc", "Rbc"], "C03_RowsEncodeRobin": ["Mbc", "Rbc"],
     "C03_RowsOnGhostOnly": ["Mbc", "Rbc"], "C03_ScaleInvariant": ["ghost", "Mbc", "Rbc", "ghostS"],
-    "C03_RobinCtor": ["f_ctor"], "C03_RobinApply": ["f_apply"], "C03_RobinSolve": ["f_solve"],
+    "C03_CtorForms": ["f_ctor"], "C03_RobinCtor": ["f_ctor"], "C03_RobinApply": ["f_apply"], "C03_RobinSolve": ["f_solve"],
     "C03_RobinExplicit": ["f_explicit"], "C03_PeriodicCtor": ["f_ctor"], "C03_PeriodicApply": ["f_apply"],
     "C03_PeriodicSolve": ["f_solve"], "C03_PeriodicExplicit": ["f_explicit"], "C03_InteriorKeptCtor": ["f_ctor"],
     "C03_SolveRowsSatisfied": ["f_solve", "Mbc", "Rbc"], "C03_PlotProfile": ["f_solve", "profile"],
@@ -55,6 +55,7 @@ for _c in SOLVE_CLAUSES:
 # which observed outputs a solver clause reads (an unliftable value in one of them makes a FAILING verdict
 # undecided) ...
 UNKNOWN_SCOPE = {
+    "C03_CtorForms": ["f_ctor_forms"],
     "C04_Solves": ["r_solve"], "C04_SameObject": ["flags"], "C04_SameAsMatrixPDE": ["r_solve", "r_matrix"],
     "C04_ExternalSolver": ["Mext", "Mhand", "Rext", "Rhand", "r_ext"], "C04_Variants": ["r_variants"],
     "C04_Linear": ["r_solve", "r_solve2", "r_sum"],
